@@ -26,11 +26,13 @@ LEVEL_TEXT = ("Bounded twin contract on the real Pipeline: a cached pipeline (ev
               "once - ghost call counter - and leaves its value resident under the key of (output name, keyword "
               "arguments); put/get/contains of the container are assumed contracts). Category 'other' = "
               "those contracts + bounded twin checking; it is not a proof of C09.")
+LEVEL_TEXT += (" Also proved: update_cache (what Pipeline._run leaves behind after computing: the result resident under its key in the same container; HybridCache.put takes the computation time, the other containers' put does not - an arity precondition of the assumed put).")
 LEVEL_NOTE = ("Bounds: DAGs of 1..4 functions, histories of length <=4 (quick) / <=6, values from 2 variants per "
               "argument, caches simple/lru/hybrid/disk (non-shared in-process). Trusted: reference twin = the same "
               "pipeline without caching.")
 TECHNIQUE = ("bounded twin (relational) contract checking over call/mutation histories; leaves compute_cache_key, "
              "get_result_from_cache and _get_or_set_cache discharged by z3")
+TECHNIQUE += ('; update_cache discharged by z3')
 EXPLANATION = LEVEL_TEXT
 RULE = ("random DAG x cache type x cached subset x random history; distinct = distinct (DAG, cache, subset, history); "
         "non-trivial = the history repeats an output with different arguments or contains a mutation")
